@@ -22,6 +22,7 @@ import (
 	"runtime/debug"
 	"strings"
 	"sync"
+	"testing/iotest"
 	"time"
 
 	"github.com/notaryproject/notation-go"
@@ -85,7 +86,9 @@ func (c *chunked) Read(p []byte) (int, error) {
 }
 
 func readerOf(k int, content []byte) io.Reader {
-	switch k % 4 {
+	switch k % 5 {
+	case 4:
+		return iotest.DataErrReader(bytes.NewReader(content)) // the last bytes arrive together with io.EOF
 	case 0:
 		return bytes.NewReader(content)
 	case 1:
@@ -125,7 +128,7 @@ func main() {
 	if r.Thorough() {
 		sizes = append(sizes, 8<<20)
 	}
-	expiries := []time.Duration{0, time.Hour, 24 * time.Hour, 10 * 365 * 24 * time.Hour}
+	expiries := []time.Duration{0, time.Hour, 45 * time.Second, 24 * time.Hour, 10 * 365 * 24 * time.Hour} // (45 s: verified at once, well before it expires)
 	var cases []caseT
 	rng := r.Rand("cases")
 	k := 0
@@ -146,6 +149,7 @@ func main() {
 			}
 		}
 	}
+	decoyRoot := lib.Mint(nil, lib.CertSpec{CN: "c07-somebody-else", Kind: "ca", KeyIdx: 5})
 	tsaRoot := lib.Mint(nil, lib.CertSpec{CN: "c07-tsa-root", Kind: "ca", KeyIdx: 6})
 	tsaLeaf := lib.Mint(tsaRoot, lib.CertSpec{CN: "c07-tsa", Kind: "tsa", KeyIdx: 2})
 	lib.Parallel(len(cases), 16, func(ci int) {
@@ -193,6 +197,17 @@ func main() {
 		sv := trustpolicy.SignatureVerification{VerificationLevel: "strict"}
 		ts := lib.NewMemTS().Put("ca:x", ent.Root().Cert)
 		stores := []string{"ca:x"}
+		switch ci % 4 { // the signer's root is in ONE of several stores of the statement; the others hold somebody else
+		case 1:
+			stores = []string{"ca:x", "ca:partners"}
+			ts.Put("ca:partners", decoyRoot.Cert)
+		case 2:
+			stores = []string{"ca:partners", "ca:x", "signingAuthority:sa"}
+			ts.Put("ca:partners", decoyRoot.Cert).Put("signingAuthority:sa", decoyRoot.Cert)
+		case 3:
+			stores = []string{"ca:x", "ca:partners", "ca:more"}
+			ts.Put("ca:partners", decoyRoot.Cert).Put("ca:more", tsaRoot.Cert)
+		}
 		sopts := notation.SignerSignOptions{SignatureMediaType: c.Format, ExpiryDuration: c.Expiry, SigningAgent: c.Agent}
 		// every third locally signed case is countersigned at signing time by the in-process RFC 3161 TSA and verified
 		// by a policy that DEMANDS the countersignature (tsa store listed, verifyTimestamp=always)
@@ -270,9 +285,12 @@ func main() {
 			}
 			alg := algOf[lib.HashFor(ent.Key)]
 			want := ocispec.Descriptor{MediaType: c.MediaType, Digest: alg.FromBytes(content), Size: int64(len(content)), Annotations: wantMeta}
+			byField := notation.VerifyBlobOptions{} // filled field by field through the promoted selectors
+			byField.SignatureMediaType, byField.UserMetadata, byField.ContentMediaType = c.Format, c.Metadata, c.MediaType
 			for vi, vo := range []notation.VerifyBlobOptions{
 				{BlobVerifierVerifyOptions: notation.BlobVerifierVerifyOptions{SignatureMediaType: c.Format, UserMetadata: c.Metadata}, ContentMediaType: c.MediaType},
 				{BlobVerifierVerifyOptions: notation.BlobVerifierVerifyOptions{SignatureMediaType: c.Format, TrustPolicyName: "p"}},
+				byField,
 			} {
 				desc, out, err := notation.VerifyBlob(ctx, v, readerOf(ci+vi+1, content), sigBytes, vo)
 				if err != nil || out == nil {
